@@ -290,6 +290,10 @@ func rtAssertStatic(ex *Exec, fn *ssa.Function, args []Value) (Value, *Panic) {
 					if g, ok := in.(*ssa.Go); ok {
 						if c := g.Call.StaticCallee(); c != nil && strings.Contains(c.Name(), what) {
 							hit = true
+							if blockInCycle(b) {
+								count++ // a go statement inside a loop starts more than one goroutine
+								sites = append(sites, f.Name()+" (in a loop)")
+							}
 						}
 					}
 				case "invoke":
@@ -342,6 +346,26 @@ func rtAssertStatic(ex *Exec, fn *ssa.Function, args []Value) (Value, *Panic) {
 		ex.report(f, nil)
 	}
 	return nil, nil
+}
+
+// blockInCycle reports whether control can return to b (the block lies on a loop).
+func blockInCycle(b *ssa.BasicBlock) bool {
+	seen := map[*ssa.BasicBlock]bool{}
+	var stack []*ssa.BasicBlock
+	stack = append(stack, b.Succs...)
+	for len(stack) > 0 {
+		x := stack[len(stack)-1]
+		stack = stack[:len(stack)-1]
+		if x == b {
+			return true
+		}
+		if seen[x] {
+			continue
+		}
+		seen[x] = true
+		stack = append(stack, x.Succs...)
+	}
+	return false
 }
 
 func rtNote(ex *Exec, fn *ssa.Function, args []Value) (Value, *Panic) {
